@@ -119,11 +119,17 @@ func (e *Engine) initStubs() {
 		return tb.False
 	}, func(e *Engine, st *State, th *Thread, args []Value) (bool, string) { return false, "quiesce" })
 	e.visible(V+"atomicBegin", func(e *Engine, st *State, th *Thread, c *callCtx) Value {
+		if e.Cfg.Race {
+			e.hbAtomicBegin(st, th)
+		}
 		th.NoPreempt++
 		return nil
 	}, nil)
 	e.stub(V+"atomicEnd", func(e *Engine, st *State, th *Thread, c *callCtx) Value {
 		th.NoPreempt--
+		if e.Cfg.Race && th.NoPreempt == 0 {
+			e.hbAtomicEnd(st, th)
+		}
 		return nil
 	})
 	e.stub(V+"IsRuntimeError", func(e *Engine, st *State, th *Thread, c *callCtx) Value {
